@@ -300,12 +300,12 @@ def run(spec, out):
                 continue
             out.count("corruption_proved_ill_formed")
             if r[0] == "ok":
-                out.violation({"kind": "accepted-unsolvable" if proof.startswith("S:") else "accepted-ill-formed", "api": "op", "proof": proof, "edit": edit, "risk": risk}, info, f"{case.op}({desc!r}, shapes={info['shapes']}, {info['kwargs']}) [{edit} of {base_desc!r}] returned a value although it is ill-formed ({proof})")
+                out.violation({"kind": "accepted-unsolvable" if proof.startswith("S:") else "accepted-ill-formed", "api": "op", "proof": proof, "edit": edit, "risk": risk, "crisk": G.risk(case)}, info, f"{case.op}({desc!r}, shapes={info['shapes']}, {info['kwargs']}) [{edit} of {base_desc!r}] returned a value although it is ill-formed ({proof})")
                 continue
             e = r[1]
             good = isinstance(e, OK) or (allow_vt and isinstance(e, (ValueError, TypeError)))
             if not good:
-                out.violation({"kind": "ill-formed-wrong-exception-class", "exc": type(e).__name__, "proof": proof, "edit": edit, **exc_site(e)}, {**info, "message": str(e)[:300]},
+                out.violation({"kind": "ill-formed-wrong-exception-class", "exc": type(e).__name__, "proof": proof, "edit": edit, "crisk": G.risk(case), **exc_site(e)}, {**info, "message": str(e)[:300]},
                               f"{case.op}({desc!r}, shapes={info['shapes']}, {info['kwargs']}) [{edit} of {base_desc!r}]: {type(e).__name__} is not a documented error for {proof}: {str(e)[:100]}")
             elif ran:
                 out.violation({"kind": "computation-before-rejection", "exc": type(e).__name__, "edit": edit}, info, f"{case.op}({desc!r}) [{edit}]: the compiled function ran before the call was rejected")
